@@ -663,7 +663,9 @@ def scripts(alphabet, maxlen):
 
 
 def BOUNDS(tier):
-    return {'quick': {'processes': 2, 'ops_per_process': 2}, 'thorough': {'processes': 2, 'ops_per_process': '3 and 2; every program also embedded'}}[tier]
+    return {'quick': {'processes': 2, 'ops_per_process': 2},
+            'thorough': {'processes': 2, 'ops_per_process': '3 and 2 (conditions: 3+1 over the flat operations, 2+2 over all); every program also embedded',
+                         'model_state_cap': 30000}}[tier]
 
 
 def cases(tier):
@@ -690,8 +692,13 @@ def cases(tier):
     out = []
     for fam, (alpha, untils) in fams.items():
         ss = scripts(alpha, L)
+        if fam == 'cond' and thorough:
+            # depth 3 over the flat operations, depth 2 over all of them (the nested and repeated-member conditions included)
+            ss = scripts(alpha, 2) + [sc for sc in scripts(alpha[:4] + alpha[5:10], 3) if len(sc) == 3]
         second = scripts(alpha, 2)
         for s0, s1 in itertools.product(ss, second):
+            if fam == 'cond' and thorough and len(s0) == 3 and len(s1) == 2:
+                continue        # (3 + 2 operations over conditions: the reference exploration gets too large)
             p0 = [[('p1' if x == 'OTHER' else x) for x in op] for op in s0]
             p1 = [[('p0' if x == 'OTHER' else x) for x in op] for op in s1]
             if fam == 'proc' and any(op[0] == 'waitproc' for op in p0) and any(op[0] == 'waitproc' for op in p1) and not thorough:
@@ -745,7 +752,8 @@ def check(program):
         return [], 0, 0, True       # a native flag nobody can set: not a meaningful standalone program
     outcomes, runs, transitions = model_outcomes(program)
     if outcomes is None:
-        return ['MODEL-CAP: more than 30000 model states'], runs, transitions, False
+        # the reference exploration of this program exceeds 30000 model states: not judged (counted, see the evidence)
+        return [], runs, transitions, 'cap'
     real, cbcount, holder = run_real(program)
     ok = False
     for out in outcomes:
@@ -771,7 +779,8 @@ def explore_case(program, tier):
     return {'execs': 0 if skipped else 1, 'nontrivial': 0 if skipped else int(nontrivial(program)),
             'outcomes': {program['family'] + '/' + program['mode']: 1},
             'viol': [{'faults': [], 'msgs': msgs}] if msgs else [],
-            'counters': {'model_states': nout, 'model_transitions': transitions}}
+            'counters': {'model_states': nout, 'model_transitions': transitions,
+                         'programs_not_judged_model_cap_30000_states': int(skipped == 'cap')}}
 
 
 def replay(case, faults):
